@@ -706,3 +706,50 @@ refactor("c02-r-locals", "C02", DISP,
 refactor("c02-r-inline-tracking", "C02", DISP,
          "        job_id = scheduled_operation.job_id\n        machine_id = scheduled_operation.machine_id\n        end_time = scheduled_operation.end_time\n\n        self._machine_next_available_time[machine_id] = end_time\n        self._job_next_operation_index[job_id] += 1\n        self._job_next_available_time[job_id] = end_time\n",
          "        self._machine_next_available_time[scheduled_operation.machine_id] = scheduled_operation.end_time\n        self._job_next_operation_index[scheduled_operation.job_id] += 1\n        self._job_next_available_time[scheduled_operation.job_id] = scheduled_operation.end_time\n")
+
+# ------------------------------------------------------------------ C04
+BASE = "job_shop_lib/_base_solver.py"
+RSOL = "job_shop_lib/dispatching/rules/_dispatching_rule_solver.py"
+RFAC = "job_shop_lib/dispatching/rules/_dispatching_rule_factory.py"
+MFAC = "job_shop_lib/dispatching/rules/_machine_chooser_factory.py"
+mutant("c04-elapsed-swapped", "C04", "R04.e", BASE,
+       "        elapsed_time = time.perf_counter() - time_start", "        elapsed_time = time_start - time.perf_counter()", "the original defect D3")
+mutant("c04-elapsed-before-solve", "C04", "R04.e", BASE,
+       "        time_start = time.perf_counter()\n        schedule = self.solve(instance)\n        elapsed_time = time.perf_counter() - time_start",
+       "        time_start = time.perf_counter()\n        elapsed_time = time.perf_counter() - time_start\n        schedule = self.solve(instance)")
+mutant("c04-solved-by-base", "C04", "R04.e", BASE,
+       "        schedule.metadata[\"solved_by\"] = self.__class__.__name__", "        schedule.metadata[\"solved_by\"] = BaseSolver.__name__")
+mutant("c04-tiebreak-global-max", "C04", "R04.c", RULES,
+       "            best_score = max(\n                scores[operation.job_id] for operation in candidates\n            )",
+       "            best_score = max(scores)", "the original defect D4")
+mutant("c04-tiebreak-min", "C04", "R04.c", RULES,
+       "            best_score = max(\n                scores[operation.job_id] for operation in candidates\n            )",
+       "            best_score = min(\n                scores[operation.job_id] for operation in candidates\n            )")
+mutant("c04-spt-raw-ready", "C04", "R04.a", RULES,
+       "    return min(\n        dispatcher.available_operations(),\n        key=lambda operation: operation.duration,\n    )",
+       "    return min(\n        dispatcher.raw_ready_operations(),\n        key=lambda operation: operation.duration,\n    )",
+       "ignores the installed filter")
+mutant("c04-spt-max", "C04", "R04.b", RULES,
+       "    return min(\n        dispatcher.available_operations(),\n        key=lambda operation: operation.duration,\n    )",
+       "    return max(\n        dispatcher.available_operations(),\n        key=lambda operation: operation.duration,\n    )")
+mutant("c04-fcfs-key", "C04", "R04.b", RULES,
+       "        key=lambda operation: operation.position_in_job,", "        key=lambda operation: operation.operation_id,")
+mutant("c04-mwkr-source", "C04", "R04.b", RULES,
+       "    for operation in dispatcher.unscheduled_operations():\n        job_remaining_work[operation.job_id] += operation.duration",
+       "    for operation in dispatcher.uncompleted_operations():\n        job_remaining_work[operation.job_id] += operation.duration",
+       "running operations counted as remaining work: differs from the observer-based twin")
+mutant("c04-mor-duration", "C04", "R04.b", RULES,
+       "    for operation in dispatcher.uncompleted_operations():\n        job_remaining_operations[operation.job_id] += 1\n\n    return max(",
+       "    for operation in dispatcher.uncompleted_operations():\n        job_remaining_operations[operation.job_id] += operation.duration\n\n    return max(")
+mutant("c04-step-default-machine", "C04", "R04.d", RSOL,
+       "        dispatcher.dispatch(selected_operation, machine_id)", "        dispatcher.dispatch(selected_operation)")
+mutant("c04-registry-swap", "C04", "R04.f", RFAC,
+       "        DispatchingRuleType.MOST_WORK_REMAINING: most_work_remaining_rule,", "        DispatchingRuleType.MOST_WORK_REMAINING: most_operations_remaining_rule,")
+mutant("c04-chooser-first-last", "C04", "R04.f", MFAC,
+       "        MachineChooserType.FIRST: lambda _, operation: operation.machines[0],", "        MachineChooserType.FIRST: lambda _, operation: operation.machines[-1],")
+refactor("c04-r-sorted", "C04", RULES,
+         "    return min(\n        dispatcher.available_operations(),\n        key=lambda operation: operation.duration,\n    )",
+         "    return sorted(\n        dispatcher.available_operations(),\n        key=lambda operation: operation.duration,\n    )[0]")
+refactor("c04-r-neg-key", "C04", RULES,
+         "    return min(\n        dispatcher.available_operations(),\n        key=lambda operation: operation.position_in_job,\n    )",
+         "    return max(\n        dispatcher.available_operations(),\n        key=lambda operation: -operation.position_in_job,\n    )")
